@@ -60,6 +60,7 @@ var (
 	consensusStatePrefix          = []byte("ConsensusState")          // consensusStatePrefix + num (uint64 big endian) -> consensus state
 	consensusValidatorsInfoPrefix = []byte("ConsensusValidatorsInfo") // consensusValidatorsInfoPrefix + hash (consensus params hash) -> consensus params info
 	consensusParamsInfoPrefix     = []byte("ConsensusParamsInfo")     // consensusParamsInfoPrefix + hash (validators hash) -> consensus validators info
+	consensusHeightValSetPrefix   = []byte("ConsensusValSetAtHeight") // consensusHeightValSetPrefix + num (uint64 big endian) + kind -> validator set of that consensus state, priorities included
 
 	// Data item prefixes (use single byte to avoid mixing data types, avoid `i`, used for indexes).
 	headerPrefix       = []byte("h") // headerPrefix + num (uint64 big endian) + hash -> header
@@ -274,6 +275,11 @@ func calcConsensusStateKey(height uint64) []byte {
 // consensusValidatorsInfoKey = consensusValidatorsInfoPrefix + hash (validators hash)
 func calcConsensusValidatorsInfoKey(hash common.Hash) []byte {
 	return append(consensusValidatorsInfoPrefix, hash.Bytes()...)
+}
+
+// consensusHeightValSetKey = consensusHeightValSetPrefix + num (uint64 big endian) + kind
+func calcConsensusHeightValSetKey(height uint64, kind byte) []byte {
+	return append(append(consensusHeightValSetPrefix, encodeBlockHeight(height)...), kind)
 }
 
 // consensusParamsInfoKey = consensusParamsInfoPrefix + hash (consensus params hash)
